@@ -9,7 +9,7 @@ systems): wire format of `harness/src/graph_small.rs`
     (g N (INIT ...) (EDGES_0 ... EDGES_{N-1}) BOUNDARY ((E COND) ...))
        EDGES_s = ((LABEL TARGET|x) ...)   BOUNDARY, COND = bitmask | (l STATE ...)   E = a | e | s
 
-Model side: `path-fromfps`, `path-fromacts`, `path-final`, `path-encode`, `view`, `status0`.
+Model side: `path-fromfps`, `path-fromacts`, `path-final`, `path-encode`, `reconstruct`, `view`, `status0`.
 Oracle side: `o-view` (answer = rows at the end of SOME execution with these fingerprints, found by
 exhaustive search, not by the first-match walk of the code), `o-disc` (discovery = genuine witness),
 `o-ondemand` (request log of an on-demand checker against the declarative pending/evaluated sets).
@@ -185,6 +185,14 @@ def handle : Drv.Handler
         s!"({encodeStr key p} {SExp.ofNats (intoStates p)} {SExp.ofNats (intoActions p)} {(lastState p).getD 0})")
   -- mode p: rows in action order, with paths; mode s: rows sorted, no paths (models whose action order
   -- depends on hash-map history)
+  -- reconstruct_path over a `generated` map ((fp parent|x) ...), newest entry first or last (keys are distinct)
+  | "reconstruct", [g, fps, gen, fp] => do
+    let g ← graph? g; let fps ← fps.nats?; let fp ← fp.nat?
+    let gen ← gen.listOf? fun e => match e with
+      | .list [k, .atom "x"] => k.nat?.map fun k => (k, none)
+      | .list [k, p] => do pure (← k.nat?, some (← p.nat?))
+      | _ => none
+    pure (optPath (reconstructPath g.toSys (keyOf fps.toArray) gen fp) "panic")
   | "view", [g, fps, url, mode] => do
     let g ← graph? g; let fps ← fps.nats?; let url ← url? url
     let M := g.toSys; let key := keyOf fps.toArray
